@@ -123,7 +123,7 @@ impl Check for C19 {
         } else {
             None
         };
-        Scn { case, imports, role_module, host_activity_pm: *rng.pick(&[20u32, 200, 1000]), fuel: 3_000_000 }
+        Scn { case, imports, role_module, host_activity_pm: *rng.pick(&[20u32, 200, 1000]), fuel: 400_000 }
     }
 
     fn shrink(&self, scn: &Scn) -> Vec<Scn> {
